@@ -175,7 +175,7 @@ def parse_reports(text):
     return reps
 
 
-def tlc_trace(tracefile, spec="Trace_Msi", timeout=1800, cfgtext=TRACE_CFG, chunk=4000):
+def tlc_trace(tracefile, spec="Trace_Msi", timeout=1800, cfgtext=TRACE_CFG, chunk=4000, split_any=False):
     """Validates an ndjson trace against the trace specification, in chunks (each chunk starts at
     a Reset/Create line so that it is self-contained).  Returns consumed lines and reports."""
     ensure_dirs()
@@ -183,7 +183,7 @@ def tlc_trace(tracefile, spec="Trace_Msi", timeout=1800, cfgtext=TRACE_CFG, chun
     if not lines:
         return {"lines": 0, "reports": [], "chunks": 0}
     # split at run starts
-    starts = [i for i, l in enumerate(lines) if '"op":"Reset"' in l[:200] or '"op":"Create"' in l[:200] or i == 0]
+    starts = [i for i, l in enumerate(lines) if split_any or '"op":"Reset"' in l[:200] or '"op":"Create"' in l[:200] or i == 0]
     chunks, cur = [], [0]
     for s in starts[1:]:
         if s - cur[0] >= chunk:
